@@ -8,7 +8,7 @@ from fractions import Fraction
 import vlib
 
 SUB = {"orient": "orientgrid", "locate": "locate", "segseg": "segseggrid", "hull": "hull", "dist2": "dist",
-       "dist3": "dist", "rdp": "rdp"}
+       "dist3": "dist", "rdp": "rdp", "rdpseq": "rdpseq"}
 
 
 def pipe(mode, sub=None):
